@@ -134,6 +134,12 @@ impl Sys for Product {
                 if w.metrics.total_gc_count() != 0 {
                     viol!("c04.count_after_drop", "arena {i}: total_gc_count() = {} after drop", w.metrics.total_gc_count());
                 }
+                // the dead arena's memory is never looked at again: let the allocator recycle it, so
+                // that stale handles can meet recycled addresses in the surviving arena
+                if self.w[1 - i].arena.is_some() && self.w[1 - i].sh.objs.iter().all(|o| !o.freed || o.dropped) {
+                    crate::talloc::flush_freed();
+                    self.w[i].cov.bump("dead_arena_memory_recycled");
+                }
             }
             K::DropH if self.w[i].arena.is_none() => {
                 let h = self.w[i].hs[op.a as usize].take();
